@@ -180,6 +180,10 @@ fn parse_modifiers(exprs: &[Option<ExprOrSpread>]) -> BTreeSet<Atom> {
 
 fn parse_v_text_directive(jsx_attr: &JSXAttr) -> Directive {
     let expr = match &jsx_attr.value {
+        // JSX attribute text is not JS string text: don't carry its `raw` over
+        Some(JSXAttrValue::Lit(Lit::Str(str))) => {
+            Expr::Lit(Lit::Str(quote_str!(str.value.clone())))
+        }
         Some(JSXAttrValue::Lit(lit)) => Expr::Lit(lit.clone()),
         Some(JSXAttrValue::JSXExprContainer(JSXExprContainer {
             expr: JSXExpr::Expr(expr),
@@ -213,6 +217,10 @@ fn parse_v_text_directive(jsx_attr: &JSXAttr) -> Directive {
 
 fn parse_v_html_directive(jsx_attr: &JSXAttr) -> Directive {
     let expr = match &jsx_attr.value {
+        // JSX attribute text is not JS string text: don't carry its `raw` over
+        Some(JSXAttrValue::Lit(Lit::Str(str))) => {
+            Expr::Lit(Lit::Str(quote_str!(str.value.clone())))
+        }
         Some(JSXAttrValue::Lit(lit)) => Expr::Lit(lit.clone()),
         Some(JSXAttrValue::JSXExprContainer(JSXExprContainer {
             expr: JSXExpr::Expr(expr),
